@@ -189,7 +189,7 @@ func genSession(t *rapid.T, o sessOpts) sessCase {
 			subMids = append(subMids, mid)
 		case "suback":
 			m := rapid.SampledFrom(subMids).Draw(t, "submid")
-			code := rapid.SampledFrom([]byte{0, 1, 2, 0x80}).Draw(t, "code")
+			code := rapid.SampledFrom([]byte{0, 1, 2, 0x80, 0x80, 3, 0x7f, 0xff}).Draw(t, "code")
 			sc.Steps = append(sc.Steps, gwgen.MQ(mqttref.Pkt{Type: mqttref.SUBACK, MsgID: m, Codes: []byte{code}}))
 		case "unsubscribe":
 			var p snref.Pkt
@@ -610,7 +610,7 @@ func TestC02(t *testing.T) {
 func TestC03(t *testing.T) {
 	vf.Check(t, vf.Prop[sessCase]{
 		ID: "C03", Name: "control-packets-one-to-one", Bubble: true,
-		Rule: "connected session; SUBSCRIBE over all topic forms x requested QoS 0-2 x message IDs from a small pool; broker SUBACKs as script steps with return code drawn from {0,1,2,0x80} independently of the requested QoS; UNSUBSCRIBE (all forms), PUBREL, PINGREQ from the client; PUBREC/PUBCOMP/UNSUBACK/PINGRESP from the broker with arbitrary IDs. Non-trivial = a SUBACK whose granted QoS differs from the requested one, or a refusal, or a non-string topic form; distinct by script.",
+		Rule: "connected session; SUBSCRIBE over all topic forms x requested QoS 0-2 x message IDs from a small pool; broker SUBACKs as script steps with return code drawn from {0,1,2,0x80} and reserved values {3,0x7f,0xff} (anything above 2 is a refusal) independently of the requested QoS; UNSUBSCRIBE (all forms), PUBREL, PINGREQ from the client; PUBREC/PUBCOMP/UNSUBACK/PINGRESP from the broker with arbitrary IDs. Non-trivial = a SUBACK whose granted QoS differs from the requested one, or a refusal, or a non-string topic form; distinct by script.",
 		Assumptions: []string{"the topic ID of a refused SUBACK is unconstrained", "a SUBACK is judged only if it answers a SUBSCRIBE of this session that is still pending (sent within RetryDelay and not yet answered)"},
 		Gen: func(t *rapid.T) sessCase {
 			return genSession(t, sessOpts{scriptedSuback: true, control: true, maxSteps: 10})
